@@ -12,101 +12,93 @@ variable {N V T : Type} [DecidableEq N] [DecidableEq V]
 theorem convBy_eq_convO (W : World N V T) (t : Option T) (v : V) :
     convBy W t v = match Spec.convO W t v with | some x => .ok x | none => .error .perr := convBy_eq W t v
 
-/-- a sent value as the wrapper hands it to the raw generator: converted, or the conversion failed -/
-def convInp (W : World N V T) (g : GenTypes T) : Option V → Option (Option V)
-  | none => some none
-  | some x => (Spec.convO W g.sendT x).map some
+theorem pw_cons (f : Bool) (y : V) (outs' : List (Ev V)) (n : Nat) :
+    (if (f && (Ev.yielded y :: outs').length == n + 1 + 1 && (Ev.yielded y :: outs').all Spec.Ev.isYielded) = true
+      then (Ev.yielded y :: outs') ++ [Ev.raised] else Ev.yielded y :: outs')
+    = Ev.yielded y :: (if (f && outs'.length == n + 1 && outs'.all Spec.Ev.isYielded) = true
+      then outs' ++ [Ev.raised] else outs') := by
+  simp only [List.length_cons, List.all_cons, Spec.Ev.isYielded, Bool.true_and, Nat.add_right_cancel_iff, beq_iff_eq,
+    List.cons_append]
+  have : (outs'.length + 1 == n + 1 + 1) = (outs'.length == n + 1) := by
+    cases h : (outs'.length == n + 1) <;> simp_all
+  rw [this]
+  split <;> rfl
 
-theorem genTrace_eq_wrapTrace (W : World N V T) (g : GenTypes T) {σ : Type} (step : σ → Option V → Step σ V)
-    (rest : List (Option V)) : ∀ (st : σ) (inp : Option V),
-      Spec.genTrace W g step st inp rest
-        = match convInp W g inp with
-          | none => [.raised]
-          | some inp' => wrapTrace W g step st inp' rest := by
-  induction rest with
+theorem wrapTrace_eq_pointwise (W : World N V T) (g : GenTypes T) {σ : Type} (step : σ → Option V → Step σ V)
+    (sends : List (Option V)) : ∀ (st : σ) (inp : Option V),
+    wrapTrace W g step st inp sends = Spec.pointwise W g step st inp sends := by
+  induction sends with
   | nil =>
     intro st inp
-    unfold Spec.genTrace wrapTrace
-    cases inp with
-    | none =>
-      simp only [convInp]
-      cases step st none with
-      | ret r => cases r <;> simp [convBy_eq_convO] <;> (try split <;> simp_all)
-      | escaped => simp
-      | diverged => simp
-      | yield v st' => simp [convBy_eq_convO]; split <;> simp_all
-    | some x =>
-      simp only [convInp]
-      cases hx : Spec.convO W g.sendT x with
-      | none => simp
-      | some x' =>
-        simp only [Option.map_some]
-        cases step st (some x') with
-        | ret r => cases r <;> simp [convBy_eq_convO] <;> (try split <;> simp_all)
-        | escaped => simp
-        | diverged => simp
-        | yield v st' => simp [convBy_eq_convO]; split <;> simp_all
-  | cons nxt more ih =>
+    unfold wrapTrace Spec.pointwise rawTrace
+    simp only [Spec.convSends, Bool.false_and, Bool.false_eq_true, if_false]
+    cases step st inp with
+    | escaped => simp [Spec.convEvents]
+    | diverged => simp [Spec.convEvents]
+    | ret r =>
+      cases r with
+      | none => simp [Spec.convEvents]
+      | some rv =>
+        simp only [Spec.convEvents, convBy_eq]
+        cases Spec.convO W g.retT rv <;> simp
+    | yield v st' =>
+      simp only [Spec.convEvents, convBy_eq]
+      cases Spec.convO W g.yieldT v <;> simp [Spec.convEvents]
+  | cons s rest ih =>
     intro st inp
-    unfold Spec.genTrace wrapTrace
-    have tail : ∀ st', Spec.genTrace W g step st' nxt more =
-        (match nxt with
-          | none => wrapTrace W g step st' none more
-          | some x =>
-            match convBy W g.sendT x with
-            | .error _ => [Ev.raised]
-            | .ok x' => wrapTrace W g step st' (some x') more) := by
-      intro st'
-      rw [ih st' nxt]
-      cases nxt with
-      | none => simp [convInp]
-      | some x =>
-        simp only [convInp, convBy_eq_convO]
-        cases Spec.convO W g.sendT x <;> simp
-    cases inp with
-    | none =>
-      simp only [convInp]
-      cases step st none with
-      | ret r => cases r <;> simp [convBy_eq_convO] <;> (try split <;> simp_all)
-      | escaped => simp
-      | diverged => simp
-      | yield v st' =>
-        simp only [convBy_eq_convO, tail]
-        cases Spec.convO W g.yieldT v with
-        | none => simp
-        | some y =>
-          cases nxt with
-          | none => simp
-          | some x2 => simp; cases Spec.convO W g.sendT x2 <;> rfl
-    | some x =>
-      simp only [convInp]
-      cases hx : Spec.convO W g.sendT x with
-      | none => simp
-      | some x' =>
-        simp only [Option.map_some]
-        cases step st (some x') with
-        | ret r => cases r <;> simp [convBy_eq_convO] <;> (try split <;> simp_all)
-        | escaped => simp
-        | diverged => simp
-        | yield v st' =>
-          simp only [convBy_eq_convO, tail]
-          cases Spec.convO W g.yieldT v with
-          | none => simp
-          | some y =>
-          cases nxt with
-          | none => simp
-          | some x2 => simp; cases Spec.convO W g.sendT x2 <;> rfl
-
+    unfold wrapTrace
+    cases hstep : step st inp with
+    | escaped => unfold Spec.pointwise rawTrace; simp [hstep, Spec.convEvents, Spec.Ev.isYielded]
+    | diverged => unfold Spec.pointwise rawTrace; simp [hstep, Spec.convEvents, Spec.Ev.isYielded]
+    | ret r =>
+      unfold Spec.pointwise rawTrace
+      cases r with
+      | none => simp [hstep, Spec.convEvents, Spec.Ev.isYielded]
+      | some rv =>
+        simp only [hstep, Spec.convEvents, convBy_eq]
+        cases Spec.convO W g.retT rv <;> simp [Spec.Ev.isYielded]
+    | yield v st' =>
+      simp only [convBy_eq]
+      cases hy : Spec.convO W g.yieldT v with
+      | none =>
+        unfold Spec.pointwise rawTrace
+        simp [hstep, Spec.convEvents, hy, Spec.Ev.isYielded]
+      | some y =>
+        simp only
+        cases s with
+        | none =>
+          dsimp only
+          rw [ih st' none]
+          unfold Spec.pointwise
+          conv => rhs; unfold rawTrace
+          simp only [hstep, Spec.convSends, Spec.convEvents, hy, List.length_cons]
+          exact (pw_cons _ y _ _).symm
+        | some x =>
+          cases hx : Spec.convO W g.sendT x with
+          | none =>
+            dsimp only
+            simp only [hx]
+            unfold Spec.pointwise
+            conv => rhs; unfold rawTrace
+            simp [hstep, Spec.convSends, hx, Spec.convEvents, hy, Spec.Ev.isYielded]
+          | some x' =>
+            dsimp only
+            simp only [hx]
+            rw [ih st' (some x')]
+            unfold Spec.pointwise
+            conv => rhs; unfold rawTrace
+            simp only [hstep, Spec.convSends, hx, Spec.convEvents, hy, List.length_cons]
+            exact (pw_cons _ y _ _).symm
 /-- **C08 (generators).**  For every raw generator (any state space, any step function), every declared
-yield / send / return type, every transformer and every finite sequence of caller inputs (`next()` / `send(x)`
-after the initial `next()`), the events the caller of the wrapper observes are exactly those of the undecorated
-generator resumed with the converted sends, each yielded and returned value converted, cut at the first value that
-does not convert (there the caller gets a ParseError).  `wrapTrace` is the loop shared by `sync_from_generator` and
-(after fix C08-asend) `async_from_generator`; the lazy wrappers forward every resumption unchanged. -/
+yield / send / return type, every transformer and every finite input history (`next()` / `send(x)` after the initial
+`next()`): the events the caller of the wrapper observes are the generator clause of the specification, which is
+stated on lists and independently of the wrapper's loop — convert the sends one by one, run the UNDECORATED machine on
+the converted history, convert its yields / return one by one, cut at the first value that does not convert (there
+the caller gets a ParseError).  `wrapTrace` is the loop shared by `sync_from_generator` and `async_from_generator`. -/
 theorem C08_gen_trace (W : World N V T) (g : GenTypes T) {σ : Type} (step : σ → Option V → Step σ V)
     (st : σ) (sends : List (Option V)) :
-    wrapTrace W g step st none sends = Spec.genTrace W g step st none sends := by
-  rw [genTrace_eq_wrapTrace]; rfl
+    wrapTrace W g step st none sends = Spec.pointwise W g step st none sends :=
+  wrapTrace_eq_pointwise W g step sends st none
 
 /-! ### tail delegation: the body hands over to a generator it yields -/
 
@@ -123,6 +115,32 @@ theorem hop_reset_eq_flat {σ : Type} (raw : σ → Option V → RawStep σ V) (
     | ret r => rfl
     | delegate st' => simpa using ih st' none
 
+/-- fuel adequacy: once the hand-overs of one resumption have been followed within `fuel`, any larger fuel gives the
+same step — the theorems below hold for every fuel, and a finite chain of hand-overs is followed in full by any fuel
+that exceeds its length -/
+theorem hop_fuel_mono (reset : Bool) {σ : Type} (raw : σ → Option V → RawStep σ V) (fuel : Nat) :
+    ∀ (fuel' : Nat) (st : σ) (inp : Option V), fuel ≤ fuel' →
+    (match hop reset raw fuel st inp with | .diverged => False | _ => True) →
+    hop reset raw fuel' st inp = hop reset raw fuel st inp := by
+  induction fuel with
+  | zero => intro fuel' st inp _ h; simp [hop] at h
+  | succ n ih =>
+    intro fuel' st inp hle h
+    cases fuel' with
+    | zero => omega
+    | succ m =>
+      simp only [hop] at h ⊢
+      cases hr : raw st inp with
+      | yield v st' => rfl
+      | ret r => rfl
+      | delegate st' =>
+        simp only [hr] at h ⊢
+        cases hi : (if reset = true then none else inp) with
+        | some x => rfl
+        | none =>
+          simp only [hi] at h ⊢
+          exact ih m st' none (by omega) h
+
 /-- **C08 (generators with delegation).**  For every raw generator whose body may, at any point, hand over to another
 generator by yielding it (and that one to a further one, …), every declared type, transformer and input history, the
 wrapper's trace (`sync_from_generator` after fix C08-sync-delegate-sent, `async_from_generator`) is the trace of the
@@ -130,7 +148,7 @@ undecorated generators followed through their hand-overs, with sends, yields and
 sent before a hand-over; `fuel` bounds the number of consecutive hand-overs followed and is arbitrary. -/
 theorem C08_gen_trace_delegation (W : World N V T) (g : GenTypes T) {σ : Type} (raw : σ → Option V → RawStep σ V)
     (fuel : Nat) (st : σ) (sends : List (Option V)) :
-    wrapTrace W g (hop true raw fuel) st none sends = Spec.genTrace W g (Spec.flat raw fuel) st none sends := by
+    wrapTrace W g (hop true raw fuel) st none sends = Spec.pointwise W g (Spec.flat raw fuel) st none sends := by
   have : hop true raw fuel = Spec.flat raw fuel := by
     funext st inp; exact hop_reset_eq_flat raw fuel st inp
   rw [this, C08_gen_trace]
@@ -143,7 +161,7 @@ False) included — and `next()` only for None, so a lazily wrapped generator (s
 the specification as well: for every raw generator, declared types, transformer and input history. -/
 theorem C08_gen_trace_lazy (W : World N V T) (g : GenTypes T) {σ : Type} (step : σ → Option V → Step σ V)
     (st : σ) (sends : List (Option V)) :
-    lazyTrace W g step pyIsNone st none sends = Spec.genTrace W g step st none sends := by
+    lazyTrace W g step pyIsNone st none sends = Spec.pointwise W g step st none sends := by
   unfold lazyTrace
   have : sends.map (forwardInput pyIsNone) = sends := by
     induction sends with
@@ -154,7 +172,7 @@ theorem C08_gen_trace_lazy (W : World N V T) (g : GenTypes T) {σ : Type} (step 
 theorem C08_gen_trace_lazy_delegation (W : World N V T) (g : GenTypes T) {σ : Type}
     (raw : σ → Option V → RawStep σ V) (fuel : Nat) (st : σ) (sends : List (Option V)) :
     lazyTrace W g (hop true raw fuel) pyIsNone st none sends
-      = Spec.genTrace W g (Spec.flat raw fuel) st none sends := by
+      = Spec.pointwise W g (Spec.flat raw fuel) st none sends := by
   have : hop true raw fuel = Spec.flat raw fuel := by
     funext st inp; exact hop_reset_eq_flat raw fuel st inp
   rw [this, C08_gen_trace_lazy]
@@ -1085,7 +1103,7 @@ resumed once more with None — the caller sees `[0, 200, stop]` where the undec
 `[0, 101, 202, 303]`; the repaired wrapper (`wrapTrace`) agrees with the specification. -/
 theorem C08_legacy_asend_witness :
     legacyAsyncTrace W₂ {} demoStep 0 [some 1, some 2, some 3] = [.yielded 0, .yielded 200, .returned none] ∧
-    Spec.genTrace W₂ {} demoStep 0 none [some 1, some 2, some 3]
+    Spec.pointwise W₂ {} demoStep 0 none [some 1, some 2, some 3]
       = [.yielded 0, .yielded 101, .yielded 202, .yielded 303] ∧
     wrapTrace W₂ {} demoStep 0 none [some 1, some 2, some 3]
       = [.yielded 0, .yielded 101, .yielded 202, .yielded 303] := by decide
@@ -1094,7 +1112,7 @@ theorem C08_truthy_forward_witness :
     lazyTrace W₂ {} demoStep' truthyIsNone 0 none [some 0, some 5, none] = [.yielded 0, .returned none] ∧
     lazyTrace W₂ {} demoStep' pyIsNone 0 none [some 0, some 5, none]
       = [.yielded 0, .yielded 100, .yielded 205, .returned none] ∧
-    Spec.genTrace W₂ {} demoStep' 0 none [some 0, some 5, none]
+    Spec.pointwise W₂ {} demoStep' 0 none [some 0, some 5, none]
       = [.yielded 0, .yielded 100, .yielded 205, .returned none] := by decide
 
 /-- a generator that yields 0, then — whatever it is resumed with — hands over to one that yields 50 and echoes -/
@@ -1113,7 +1131,7 @@ both agree. -/
 theorem C08_delegation_sent_witness :
     wrapTrace W₂ {} (hop false demoRaw 5) 0 none [some 3, some 4] = [.yielded 0, .escaped] ∧
     wrapTrace W₂ {} (hop true demoRaw 5) 0 none [some 3, some 4] = [.yielded 0, .yielded 50, .yielded 64] ∧
-    Spec.genTrace W₂ {} (Spec.flat demoRaw 5) 0 none [some 3, some 4] = [.yielded 0, .yielded 50, .yielded 64] ∧
+    Spec.pointwise W₂ {} (Spec.flat demoRaw 5) 0 none [some 3, some 4] = [.yielded 0, .yielded 50, .yielded 64] ∧
     wrapTrace W₂ {} (hop false demoRaw 5) 0 none [none, some 4] = [.yielded 0, .yielded 50, .yielded 64] := by
   decide
 
